@@ -315,6 +315,27 @@ def r_unary_table(repo, rep, R='R4.3'):
             bad.append('%s misses %d arguments and is labelled ADV0' % (row[0], k))
         elif pairs.get('mod') not in ('adv', 'adn'):
             bad.append('%s is neither adnominal nor adverbial (labelled OTHER)' % row[0])
+    # ... and what the labelling function answers for each of them is the label its shape calls for (evaluated on the paths of
+    # the function, where its tests are of the recognised kinds)
+    from .c20 import eval_unary_labels
+    got = {}
+    reach, _t = eval_unary_labels(repo, got)
+    if reach is not None:
+        wrong = []
+        for row in rows:
+            lhs = datafiles.parse_cat(row[0])
+            pairs = dict(datafiles.feature_pairs(datafiles.result_atom(lhs)) or [])
+            k = datafiles.nargs(lhs)
+            want = None
+            if pairs.get('mod') == 'adn':
+                want = 'ADNext' if k == 0 else 'ADNint'
+            elif pairs.get('mod') == 'adv' and k <= 2:
+                want = 'ADV%d' % k
+            if want is not None and got.get(row[0]) != want:
+                wrong.append('%s is labelled %s, its shape calls for %s' % (row[0], got.get(row[0]), want))
+        rep.check(not wrong, R, '%s:%s _unary_rule_symbol' % (rg.JA, repo.module(rg.JA).get('_unary_rule_symbol').lineno), '_unary_rule_symbol:shipped-inputs',
+                  'each of the %d inputs of the shipped unary table gets the label of its shape' % len(rows),
+                  'inputs of the shipped unary table get the wrong label: %s' % '; '.join(wrong[:3]))
     rep.check(not bad, R, '%s:1 unary_rules' % rel, rel + ':label-domain',
               'all %d inputs of the shipped unary table are adnominal, or adverbial with at most two missing arguments' % len(rows),
               'the shipped unary table has inputs the labels cannot describe: %s' % '; '.join(bad[:3]))
